@@ -1,8 +1,250 @@
 From Coq Require Import ZArith NArith List.
-From PSO Require Import Base.PyBytes Base.PyBytesFacts Framing.Model.
+From PSO Require Import Base.PyBytes Base.PyBytesFacts Framing.Model Framing.Proofs Framing.Proofs2.
 Import ListNotations.
+Open Scope Z_scope.
 
+(* struct.pack('i', z) / struct.unpack('i', ...) *)
 Theorem C13_length_field_roundtrip :
   forall z rest, (- two31 <= z < two31)%Z -> unpack_i (pack_i z ++ rest) = z.
 Proof. exact unpack_pack_i. Qed.
 Print Assumptions C13_length_field_roundtrip.
+
+(* feed dec c chunk = parse_all dec (set_rbuf c (rbuf c ++ chunk)) is exactly what one
+   __processConnection call with the READ flag does when recv returns the non-empty chunks bs
+   (then EAGAIN or end of script), no error flag, no timeout, nothing to write *)
+Theorem C13_feed_is_step :
+  forall (dec : bytes -> dres) (c : conn) (now : Z) (wr : bool) (ss : list sres)
+         (bs : list bytes) (tl : list rres),
+    st c = Connected ->
+    now - last_read c <= timeout c ->
+    (wr = true -> wbuf c = []) ->
+    Forall (fun b => b <> []) bs ->
+    match tl with [] => True | REagain :: _ => True | _ => False end ->
+    step dec c (EPoll now true wr false false ss (map (fun b => RChunk b false) bs ++ tl))
+    = feed dec (set_last_read c now) (concat bs).
+Proof. exact step_poll_is_feed. Qed.
+Print Assumptions C13_feed_is_step.
+
+(* all message lists, all fragmentations of the frame stream: exactly ms, in order, buffer
+   empty, connection state untouched, no oracle miss *)
+Theorem C13_reader :
+  forall (dec : bytes -> dres) (payload : N -> bytes) (ms : list N) (cs : list bytes) (c : conn),
+    (forall m, In m ms -> dec (payload m) = DOk m /\ zlen (payload m) < two31) ->
+    rbuf c = [] ->
+    concat cs = concat (map (fun m => frame (payload m)) ms) ->
+    feed_all dec c cs =
+      (c, {| accepted := []; delivered := ms; disc_calls := 0; miss := false |}).
+Proof. exact C13_reader_thm. Qed.
+Print Assumptions C13_reader.
+
+(* after any prefix of the stream, in any fragmentation: the first k messages, where the bytes
+   that arrived are k whole frames plus a strict prefix (tail) of frame k; rbuf = tail *)
+Theorem C13_reader_prefix :
+  forall (dec : bytes -> dres) (payload : N -> bytes) (ms : list N) (cs : list bytes)
+         (rest : bytes) (c : conn),
+    (forall m, In m ms -> dec (payload m) = DOk m /\ zlen (payload m) < two31) ->
+    rbuf c = [] ->
+    concat cs ++ rest = concat (map (fun m => frame (payload m)) ms) ->
+    exists k tail,
+      (k <= length ms)%nat /\
+      concat cs = concat (map (fun m => frame (payload m)) (firstn k ms)) ++ tail /\
+      match skipn k ms with
+      | [] => tail = []
+      | m :: _ => exists s, s <> [] /\ tail ++ s = frame (payload m)
+      end /\
+      feed_all dec c cs =
+        (set_rbuf c tail,
+         {| accepted := []; delivered := firstn k ms; disc_calls := 0; miss := false |}).
+Proof. exact C13_reader_prefix_thm. Qed.
+Print Assumptions C13_reader_prefix.
+
+(* the same for every such decomposition (so k and tail are determined by the bytes) *)
+Theorem C13_reader_prefix_unique :
+  forall (dec : bytes -> dres) (payload : N -> bytes) (ms : list N) (cs : list bytes)
+         (k : nat) (tail : bytes) (c : conn),
+    (forall m, In m ms -> dec (payload m) = DOk m /\ zlen (payload m) < two31) ->
+    rbuf c = [] -> (k <= length ms)%nat ->
+    concat cs = concat (map (fun m => frame (payload m)) (firstn k ms)) ++ tail ->
+    match skipn k ms with
+    | [] => tail = []
+    | m :: _ => exists s, s <> [] /\ tail ++ s = frame (payload m)
+    end ->
+    feed_all dec c cs =
+      (set_rbuf c tail,
+       {| accepted := []; delivered := firstn k ms; disc_calls := 0; miss := false |}).
+Proof. exact C13_reader_prefix_unique_thm. Qed.
+Print Assumptions C13_reader_prefix_unique.
+
+(* C13_reader stated on Model.run: one READ event per non-empty chunk, polls_ok = chunks
+   non-empty and no poll later than the timeout after the previous one *)
+Theorem C13_reader_on_run :
+  forall (dec : bytes -> dres) (payload : N -> bytes) (ms : list N) (ps : list (Z * bytes))
+         (c : conn),
+    (forall m, In m ms -> dec (payload m) = DOk m /\ zlen (payload m) < two31) ->
+    st c = Connected -> rbuf c = [] ->
+    polls_ok (last_read c) (timeout c) ps ->
+    concat (map snd ps) = concat (map (fun m => frame (payload m)) ms) ->
+    exists c' os,
+      run dec c (map (fun p => EPoll (fst p) true false false false [] [RChunk (snd p) false]) ps)
+        = (c', os) /\
+      st c' = Connected /\ rbuf c' = [] /\ wbuf c' = wbuf c /\
+      fold_right out_app no_out os =
+        {| accepted := []; delivered := ms; disc_calls := 0; miss := false |}.
+Proof. exact C13_reader_on_run_thm. Qed.
+Print Assumptions C13_reader_on_run.
+
+(* writer, schedules that keep the connection up (benign_event: send() and polls without READ,
+   socket.send returns any k, 0 or EAGAIN, no error flag, no timeout):
+   accepted-so-far ++ write buffer = frames handed to send(), in order *)
+Theorem C13_writer :
+  forall (dec : bytes -> dres) (es : list event) (c c' : conn) (os : list outs),
+    st c = Connected -> wbuf c = [] ->
+    Forall (benign_event (last_read c) (timeout c)) es ->
+    run dec c es = (c', os) ->
+    concat (map accepted os) ++ wbuf c' = sent_of es /\
+    st c' = Connected /\ rbuf c' = rbuf c /\
+    Forall (fun o => delivered o = [] /\ disc_calls o = 0%nat /\ miss o = false) os.
+Proof. exact writer_invariant. Qed.
+Print Assumptions C13_writer.
+
+(* writer, ALL event sequences (errors, timeouts, reads, disconnects included): what the socket
+   accepted is a prefix of the frames handed to send(); while Connected the rest is the buffer *)
+Theorem C13_writer_any_schedule :
+  forall (dec : bytes -> dres) (es : list event) (c c' : conn) (os : list outs),
+    run dec c es = (c', os) ->
+    exists rest,
+      concat (map accepted os) ++ rest = wbuf c ++ sent_of es /\
+      (st c' = Connected -> wbuf c' = rest).
+Proof. exact writer_any. Qed.
+Print Assumptions C13_writer_any_schedule.
+
+(* socket.send fails (f = SNeg or SErr) after accepting total ks bytes, fewer than buffered *)
+Theorem C13_writer_failure_send :
+  forall (dec : bytes -> dres) (c : conn) (now : Z) (p : bytes) (ks : list N) (f : sres)
+         (post : list sres),
+    st c = Connected -> now - last_read c <= timeout c ->
+    match f with SNeg | SErr => True | _ => False end ->
+    (total ks < length (wbuf c ++ frame p))%nat ->
+    step dec c (ESend now p (map SAccept ks ++ f :: post)) =
+      ({| st := Disconnected; rbuf := []; wbuf := []; last_read := last_read c; timeout := timeout c |},
+       {| accepted := firstn (total ks) (wbuf c ++ frame p); delivered := [];
+          disc_calls := 1; miss := false |}).
+Proof. exact writer_failure_send. Qed.
+Print Assumptions C13_writer_failure_send.
+
+Theorem C13_writer_failure_poll :
+  forall (dec : bytes -> dres) (c : conn) (now : Z) (rd soerr : bool) (ks : list N) (f : sres)
+         (post : list sres) (rs : list rres),
+    st c = Connected -> now - last_read c <= timeout c ->
+    match f with SNeg | SErr => True | _ => False end ->
+    (total ks < length (wbuf c))%nat -> soerr = false ->
+    step dec c (EPoll now rd true false soerr (map SAccept ks ++ f :: post) rs) =
+      ({| st := Disconnected; rbuf := []; wbuf := []; last_read := last_read c; timeout := timeout c |},
+       {| accepted := firstn (total ks) (wbuf c); delivered := []; disc_calls := 1; miss := false |}).
+Proof. exact writer_failure_poll. Qed.
+Print Assumptions C13_writer_failure_poll.
+
+Theorem C13_writer_timeout_send :
+  forall (dec : bytes -> dres) (c : conn) (now : Z) (p : bytes) (script : list sres),
+    st c = Connected -> now - last_read c > timeout c ->
+    step dec c (ESend now p script) =
+      ({| st := Disconnected; rbuf := []; wbuf := []; last_read := last_read c; timeout := timeout c |},
+       {| accepted := []; delivered := []; disc_calls := 1; miss := false |}).
+Proof. exact writer_timeout_send. Qed.
+Print Assumptions C13_writer_timeout_send.
+
+Theorem C13_writer_timeout_poll :
+  forall (dec : bytes -> dres) (c : conn) (now : Z) (rd wr soerr : bool) (ss : list sres)
+         (rs : list rres),
+    st c = Connected -> now - last_read c > timeout c ->
+    step dec c (EPoll now rd wr false soerr ss rs) =
+      ({| st := Disconnected; rbuf := []; wbuf := []; last_read := last_read c; timeout := timeout c |},
+       {| accepted := []; delivered := []; disc_calls := 1; miss := false |}).
+Proof. exact writer_timeout_poll. Qed.
+Print Assumptions C13_writer_timeout_poll.
+
+(* composition: messages ms handed to send() on a connection driven by ANY event sequence; the
+   bytes accepted so far, cut arbitrarily, fed to a reader: firstn k ms; all of ms once the
+   sender (still up) has an empty write buffer *)
+Theorem C13_roundtrip :
+  forall (dec : bytes -> dres) (payload : N -> bytes) (decw : bytes -> dres)
+         (es : list event) (ms : list N) (cw cw' : conn) (os : list outs)
+         (cs : list bytes) (cr : conn),
+    wbuf cw = [] ->
+    flat_map (fun e => match e with ESend _ p _ => [p] | _ => [] end) es = map payload ms ->
+    (forall m, In m ms -> dec (payload m) = DOk m /\ zlen (payload m) < two31) ->
+    run decw cw es = (cw', os) ->
+    concat cs = concat (map accepted os) -> rbuf cr = [] ->
+    (exists k tail,
+       (k <= length ms)%nat /\
+       concat (map accepted os) = concat (map (fun m => frame (payload m)) (firstn k ms)) ++ tail /\
+       match skipn k ms with
+       | [] => tail = []
+       | m :: _ => exists s, s <> [] /\ tail ++ s = frame (payload m)
+       end /\
+       feed_all dec cr cs =
+         (set_rbuf cr tail,
+          {| accepted := []; delivered := firstn k ms; disc_calls := 0; miss := false |})) /\
+    (st cw' = Connected -> wbuf cw' = [] ->
+     feed_all dec cr cs =
+       (cr, {| accepted := []; delivered := ms; disc_calls := 0; miss := false |})).
+Proof. exact C13_roundtrip_thm. Qed.
+Print Assumptions C13_roundtrip.
+
+(* good frames ms, then a frame with a negative length field or an undecodable payload, then
+   anything: exactly ms delivered, then Disconnected, buffers dropped, onDisconnected once *)
+Theorem C13_bad_frame_disconnects :
+  forall (dec : bytes -> dres) (payload : N -> bytes) (c : conn) (ms : list N)
+         (bad rest : bytes),
+    (forall m, In m ms -> dec (payload m) = DOk m /\ zlen (payload m) < two31) ->
+    st c = Connected ->
+    ((4 <= length bad)%nat /\ unpack_i bad < 0) \/
+    (exists d, bad = pack_i (zlen d) ++ d /\ zlen d < two31 /\ dec d = DFail) ->
+    rbuf c = concat (map (fun m => frame (payload m)) ms) ++ bad ++ rest ->
+    parse_all dec c =
+      ({| st := Disconnected; rbuf := []; wbuf := []; last_read := last_read c; timeout := timeout c |},
+       {| accepted := []; delivered := ms; disc_calls := 1; miss := false |}).
+Proof. exact C13_bad_frame_disconnects_thm. Qed.
+Print Assumptions C13_bad_frame_disconnects.
+
+(* the same on the modelled READ event that completes the bad frame *)
+Theorem C13_bad_frame_disconnects_step :
+  forall (dec : bytes -> dres) (payload : N -> bytes) (c : conn) (now : Z) (ms : list N)
+         (bad rest : bytes) (bs : list bytes) (tl : list rres),
+    (forall m, In m ms -> dec (payload m) = DOk m /\ zlen (payload m) < two31) ->
+    st c = Connected -> now - last_read c <= timeout c ->
+    Forall (fun b => b <> []) bs ->
+    match tl with [] => True | REagain :: _ => True | _ => False end ->
+    ((4 <= length bad)%nat /\ unpack_i bad < 0) \/
+    (exists d, bad = pack_i (zlen d) ++ d /\ zlen d < two31 /\ dec d = DFail) ->
+    rbuf c ++ concat bs = concat (map (fun m => frame (payload m)) ms) ++ bad ++ rest ->
+    step dec c (EPoll now true false false false [] (map (fun b => RChunk b false) bs ++ tl)) =
+      ({| st := Disconnected; rbuf := []; wbuf := []; last_read := now; timeout := timeout c |},
+       {| accepted := []; delivered := ms; disc_calls := 1; miss := false |}).
+Proof. exact C13_bad_frame_disconnects_step_thm. Qed.
+Print Assumptions C13_bad_frame_disconnects_step.
+
+(* nothing after the bad frame: a Disconnected connection ignores poll events ... *)
+Theorem C13_disconnected_ignores_poll :
+  forall (dec : bytes -> dres) (c : conn) (now : Z) (rd wr er soerr : bool)
+         (ss : list sres) (rs : list rres),
+    st c = Disconnected -> step dec c (EPoll now rd wr er soerr ss rs) = (c, no_out).
+Proof. exact step_poll_disconnected. Qed.
+Print Assumptions C13_disconnected_ignores_poll.
+
+(* ... and under any events stays Disconnected, delivers and sends nothing, no second callback *)
+Theorem C13_disconnected_stays_quiet :
+  forall (dec : bytes -> dres) (es : list event) (c : conn),
+    st c = Disconnected ->
+    st (fst (run dec c es)) = Disconnected /\
+    Forall (fun o => accepted o = [] /\ delivered o = [] /\ disc_calls o = 0%nat /\ miss o = false)
+           (snd (run dec c es)).
+Proof. exact run_disconnected. Qed.
+Print Assumptions C13_disconnected_stays_quiet.
+
+(* the fuel of parse_all is never what stops the loop *)
+Theorem C13_parse_fuel_sufficient :
+  forall (dec : bytes -> dres) (c : conn) (extra : nat),
+    parse_loop dec (S (length (rbuf c))) c = parse_loop dec (S (length (rbuf c)) + extra) c.
+Proof. exact parse_all_fuel_sufficient. Qed.
+Print Assumptions C13_parse_fuel_sufficient.
